@@ -85,7 +85,8 @@ KINDS = ("node", "apside", "anomaly", "signal", "mask", "max", "radial", "umbra"
 # ------------------------------------------------------------------------------------------------
 def jobs(tier):
     n = 64 if tier == "quick" else 1040
-    return [{"name": "streams", "n": n, "eop": "real", "timeout": 1500 if tier == "quick" else 7200}]
+    return [{"name": "streams", "n": n, "eop": "real", "timeout": 1500 if tier == "quick" else 7200},
+            {"name": "long-steps", "n": 24 if tier == "quick" else 400, "eop": "zero"}]
 
 
 def requirements(tier):
@@ -96,6 +97,7 @@ def requirements(tier):
         req[f"judged:{kind}"] = 300 * k
         req[f"sharp:{kind}"] = 8 * k
         req[f"label:{kind}"] = 8 * k
+    req.update({"long-step:event:node": 40 * k, "long-step:event:apside": 40 * k, "long-step:11h": 2 * k, "long-step:5h": 2 * k})
     for p in ("Kepler", "J2", "Sgp4", "KeplerNum", "Ephem"):
         req[f"prop:{p}"] = 6 * k
     req.update({
@@ -671,7 +673,58 @@ def lib_exception(ctx, key, env, exc, what):
     ctx.violation(key, dict(env.witness, exc=repr(exc)), f"{what} raised {exc!r}")
 
 
+def long_step_case(ctx, job, idx, rng, st):
+    """Sampling steps of hours ("every sampling step"): node / apside events of a Kepler or J2 orbit must still sit
+    within a few microseconds of the sign change of the watched quantity, and the stream stays chronological."""
+    from beyond.dates import Date, timedelta
+    from beyond.orbits import Orbit
+    from beyond.propagators import listeners as L
+    from beyond.propagators.kepler import Kepler
+    from beyond.propagators.j2 import J2
+    from ..oracles import elements as el
+
+    mu = 3.986004418e14
+    a = rng.uniform(2.0e7, 4.5e7)
+    e = rng.uniform(0.3, 0.74)
+    if a * (1 - e) < 6.7e6:
+        e = 1 - 6.9e6 / a
+    r, v = el.kep2cart(a, e, rng.uniform(0.3, 2.8), rng.uniform(0, 6.28), rng.uniform(0, 6.28), rng.uniform(0, 6.28), mu)
+    prop = (Kepler, J2)[idx % 2]
+    step_h = (1, 3, 5, 7, 11)[(idx // 2) % 5]
+    epoch = Date(2018, 4, 5, 16, 50) + timedelta(seconds=rng.uniform(0, 86400 * 300))
+    orb = Orbit([float(x) for x in r] + [float(x) for x in v], epoch, "cartesian", "EME2000", prop())
+    w = {"a": a, "e": e, "cart0": [float(x) for x in r] + [float(x) for x in v], "epoch": str(epoch), "propagator": prop.__name__, "step_h": step_h}
+    ctx.case(w)
+    ctx.count(f"long-step:{step_h}h")
+    days = max(4, step_h)
+    try:
+        stream = list(orb.iter(stop=timedelta(days=days), step=timedelta(hours=step_h), listeners=[L.NodeListener(), L.ApsideListener()]))
+    except Exception as exc:
+        ctx.violation("C10/iteration-raises-long-step", dict(w, exc=repr(exc)), repr(exc))
+        return
+
+    def g(kind, sv):
+        c = probe.arr(sv.copy(form="cartesian"))
+        return float(c[2]) if kind == "node" else float(c[:3] @ c[3:])  # z (sign of the latitude) / r.v (sign of the radial rate)
+
+    prev = None
+    for p in stream:
+        if prev is not None:
+            ctx.expect(p.date >= prev.date, "C10/order-long-step", dict(w, prev=str(prev.date), cur=str(p.date)), "stream not chronological")
+        prev = p
+        if p.event is None:
+            continue
+        kind = "node" if "Node" in p.event.info else "apside"
+        ctx.count(f"long-step:event:{kind}")
+        vals = [g(kind, orb.propagate(p.date + timedelta(microseconds=us))) for us in (-6, -3, 0, 3, 6)]
+        change = any((x > 0) != (y > 0) for x, y in zip(vals, vals[1:]))
+        ctx.expect(change, f"C10/event-not-at-sign-change-{kind}-long-step", dict(w, event=str(p.date), info=p.event.info, g_around=vals, offsets_us=[-6, -3, 0, 3, 6]),
+                   f"{p.event.info} at {p.date} with a {step_h} h sampling step: the watched quantity does not change sign within +-6 us: {vals}")
+
+
 def run_case(ctx, job, idx, rng, st):
+    if job["name"] == "long-steps":
+        return long_step_case(ctx, job, idx, rng, st)
     from beyond.dates import Date, timedelta
     from beyond.propagators import listeners as L
 
